@@ -293,7 +293,12 @@ class SimContext:
         cpu_count: int = 4,
         fault: Optional[dict] = None,
         monitor: bool = False,
+        preempt: bool = False,
     ):
+        # pre-emptive mode: task bodies run in real threads, exactly one of which runs at any time;
+        # the scheduler (whoever waits for the pool) decides at every line event of a library frame
+        # inside a task whether the task is pre-empted there (fault-free configurations only)
+        self.preempt = bool(preempt) and not fault
         self.sched = sched if sched is not None else Choices(replay=[])
         self.workers = workers
         self.cpu_count = cpu_count
@@ -307,6 +312,7 @@ class SimContext:
         self.submit_counter = 0
         self.fault_fired: Optional[str] = None
         self.fault_where: Optional[str] = None
+        self.preempt_sites: set = set()
         self.wait_counter = 0
         self.pools: List[tuple] = []
         self.stats: Counter = Counter()
@@ -365,6 +371,90 @@ class use_context:
 # ---------------------------------------------------------------------------
 
 _PENDING, _RUNNING, _FINISHED, _CANCELLED = range(4)
+
+PREEMPT_ONE_IN = 3  # a task is pre-empted at a library line event with probability 1/3
+PREEMPT_SITES: Counter = Counter()
+
+
+class _TaskThread:
+    """One task body in a real thread that only runs while it holds the baton.  `run_slice` (called
+    by whoever schedules: the consumer of the pool) hands the baton over and waits until the task
+    parks again -- at a drawn line event of a library frame -- or ends.  Exactly one thread executes
+    Python (or a kernel) at any time, so the interleaving is a pure function of the schedule stream."""
+
+    def __init__(self, pool: "SimExecutor", fut: "SimFuture"):
+        import threading
+
+        self.pool = pool
+        self.fut = fut
+        self.resume = threading.Event()
+        self.parked = threading.Event()
+        self.done = False
+        self.started = False
+        self.slices = 0
+        self.thread = threading.Thread(target=self._main, daemon=True, name=f"gbsim-task-{pool._serial}-{fut._idx}")
+        self.thread._gbsim_depth = pool._depth + 1
+
+    # -- scheduler side --
+    def run_slice(self):
+        self.slices += 1
+        self.parked.clear()
+        if not self.started:
+            self.started = True
+            self.thread.start()
+        self.resume.set()
+        self.parked.wait()
+
+    # -- task side --
+    def _main(self):
+        import sys
+
+        self.resume.wait()
+        self.resume.clear()
+        fut = self.fut
+        try:
+            sys.settrace(self._trace_global)
+            try:
+                fut._result = fut._fn(*fut._args, **fut._kwargs)
+            finally:
+                sys.settrace(None)
+        except BaseException as exc:  # as the real worker does
+            fut._exc = exc
+        finally:
+            self.done = True
+            self.parked.set()
+
+    def _trace_global(self, frame, event, arg):
+        if event != "call":
+            return None
+        code = frame.f_code
+        c = _CODE_CLASS.get(code)
+        if c is None:
+            c = _classify_code(code)
+        if c == 0:
+            return None
+        self._maybe_yield(frame)
+        return self._trace_local
+
+    def _trace_local(self, frame, event, arg):
+        if event == "line":
+            self._maybe_yield(frame)
+        return self._trace_local
+
+    def _maybe_yield(self, frame):
+        ctx = self.pool.ctx
+        if not ctx.sched.chance(1, PREEMPT_ONE_IN):
+            return
+        code = frame.f_code
+        where = f"{code.co_filename[len(_LIB_DIR[0]):]}:{code.co_name}:{frame.f_lineno}"
+        ctx.stats["preemptions"] += 1
+        ctx.log(self.pool._now, "preempt", where, self.fut._idx)
+        PREEMPT_SITES[where] += 1
+        ctx.preempt_sites.add(where)
+        # park: hand the baton back to the scheduler, wait to be resumed
+        self.parked.set()
+        self.resume.wait()
+        self.resume.clear()
 
 
 class SimFuture:
@@ -457,7 +547,12 @@ class SimExecutor:
         self._delivery: List[int] = []
         self._done_at_delivery: List[int] = []
         self._first_delivery_seq = None
-        self._depth = ctx.depth
+        import threading
+
+        # (a pool created inside a pre-emptively run task body lives one level below that task)
+        self._depth = getattr(threading.current_thread(), "_gbsim_depth", ctx.depth)
+        self._active: List[_TaskThread] = []
+        self._slices: List[int] = []
         self._serial = ctx.n_pools  # per-context, so hashes of futures replay
         self._initializer = initializer
         self._initargs = initargs
@@ -533,6 +628,8 @@ class SimExecutor:
     def _step(self) -> bool:
         """Process one event.  Returns False when nothing can happen."""
         ctx = self.ctx
+        if ctx.preempt:
+            return self._step_preempt()
         if self._queue and self._running < self._capacity():
             fut = self._queue.popleft()
             self._start(fut)
@@ -543,6 +640,43 @@ class SimExecutor:
                 ctx.ticks += tick - self._now
                 self._now = tick
             self._finish(fut)
+            return True
+        return False
+
+    def _step_preempt(self) -> bool:
+        """Pre-emptive mode: start a queued task (a parked thread) or let one started task run
+        until its next pre-emption point or its end."""
+        ctx = self.ctx
+        s = ctx.sched
+        can_start = bool(self._queue) and self._running < self._capacity()
+        if can_start and (not self._active or s.chance(1, 2)):
+            fut = self._queue.popleft()
+            fut._state = _RUNNING
+            fut._body_ran = True
+            self._running += 1
+            ctx.exec_counter += 1
+            self._exec_order.append(fut._idx)
+            if self._first_delivery_seq is not None:
+                ctx.stats["consumer_interleaved_with_tasks"] += 1
+            ctx.log(self._now, "start", self._site(fut), fut._idx)
+            self._active.append(_TaskThread(self, fut))
+            return True
+        if self._active:
+            t = self._active[s.draw(len(self._active))]
+            self._now += 1
+            ctx.ticks += 1
+            self._slices.append(t.fut._idx)
+            if len(self._active) > 1 and t.started:
+                ctx.stats["resumed_among_several_started_tasks"] += 1
+            t.run_slice()
+            if t.done:
+                self._active.remove(t)
+                fut = t.fut
+                fut._state = _FINISHED
+                self._running -= 1
+                ctx.log(self._now, "finish", self._site(fut), fut._idx)
+                for cb in fut._callbacks:
+                    cb(fut)
             return True
         return False
 
@@ -621,7 +755,19 @@ class SimExecutor:
         ctx = self.ctx
         n = len(self._tasks)
         ctx.max_tasks = max(ctx.max_tasks, n)
-        ctx.pools.append((self._site(), n, self._depth, tuple(self._exec_order), tuple(self._delivery), tuple(self._done_at_delivery)))
+        ctx.pools.append((self._site(), n, self._depth, tuple(self._exec_order), tuple(self._delivery), tuple(self._done_at_delivery)) + ((tuple(self._slices),) if self._slices else ()))
+        if self._slices:
+            ctx.stats["preemptive_pools"] += 1
+            if any(a != b for a, b in zip(self._slices, self._slices[1:])) and len(set(self._slices)) > 1:
+                # some task ran a slice between two slices of another one
+                seen_open = set()
+                last = None
+                for i_ in self._slices:
+                    if i_ != last and i_ in seen_open:
+                        ctx.stats["tasks_interleaved_inside_bodies"] += 1
+                        break
+                    seen_open.add(i_)
+                    last = i_
         if self._exec_order != sorted(self._exec_order) or self._delivery != sorted(self._delivery):
             ctx.stats["completion_order_not_fifo"] += 1
         if self._W < n:
